@@ -18,6 +18,9 @@ def seeds(ids):
         pid, k = os.path.basename(d).split("-")
         if ids and pid not in ids:
             continue
+        only = os.environ.get("SEED_IDS")
+        if only and "%s-%s" % (pid, k) not in only.split(","):
+            continue
         rnd = os.environ.get("SEED_ROUND")
         if rnd and str(json.load(open(os.path.join(d, "meta.json"))).get("round", 1)) != rnd:
             continue
